@@ -1144,8 +1144,8 @@ def _levels(tier, refs):
         levels.append(('1 crash, cold start: s0,s1,s2 all k',
                        chains('s0', cold1('s0'), True) + chains('s1', cold1('s1'), True)
                        + chains('s2', cold1('s2'), True)))
-        levels.append(('2 crashes: s0 cos->opi, pi->cos (all k1 x phase1 x k2 x phase2)',
-                       chains('s0', warm2('s0', [0, 2]))))
+        levels.append(('2 crashes: s0 cos->opi (all k1 x phase1 x k2 x phase2)',
+                       chains('s0', warm2('s0', [0]))))
         levels.append(('3 consecutive crashes (diagonal): s0, s1 all queries',
                        chains('s0', diag3('s0', [0, 1, 2])) + chains('s1', diag3('s1', [0, 1, 2]))))
     depth = 5 if tier == 'quick' else 6
